@@ -14,7 +14,7 @@ from dagrt.language import (Assign, AssignFunctionCall, DAGCode, ExecutionContro
 
 from simdag.core.outcome import Violation
 from simdag.gen.dags import KINDS, closure, gen_graph, sinks
-from simdag.seams.ordfs import OrdFS, SimPhase, TapeChooser
+from simdag.seams.ordfs import OrdFS, TapeChooser, make_phase
 
 META = {"C04": {
     "level": "exploration",
@@ -32,11 +32,12 @@ META = {"C04": {
              "dagrt.exec_numpy.NumpyInterpreter.run_single_step/run (wired modes)",
              "statement classes (exec_method dispatch)"],
     "stub": ["target callbacks evaluate_condition/exec_* (simulated guards, requests, cut-offs)",
-             "iteration order of depends_on / sinks / statements (tape-owned OrdFS, SimPhase)"],
+             "iteration order of depends_on / sinks / statements (tape-owned OrdFS, PhaseProxy in front of a real ExecutionPhase)"],
     "assumptions": ["graphs are acyclic and dependency-closed (well-formed phases only)",
                     "the controller is reset at the start of each step, as the interpreter does"],
     "probes": ["request_executed", "request_planned", "request_new", "cutoff_then_step",
-               "guard_false_with_dependents", "nested_request", "real_guard_false", "abandon_wired"],
+               "guard_false_with_dependents", "nested_request", "real_guard_false", "abandon_wired",
+               "phase_made_by_copy"],
 }}
 
 
@@ -325,7 +326,7 @@ def run_c04_real(ctx):
             stmts.append(nop)
             ctx.count("probe:real_mode_nop")
         storage = [stmts[i] for i in tape.perm(len(stmts), "storage")]
-        phases[ph.name] = SimPhase(ph.name, ph.next_phase, storage, chooser)
+        phases[ph.name] = make_phase(tape, ph.name, ph.next_phase, storage, chooser, ctx.count)
         info[ph.name] = {st.id: set(st.depends_on) for st in stmts}
     code = DAGCode(phases, sc.initial)
     state = {"visited": [], "pending": None, "phase": None, "cut": False}
@@ -480,10 +481,11 @@ def run_c04(ctx):
                 st.depends_on = OrdFS(st.depends_on, chooser, "deps:" + st.id)
             storage_q = [stmts_q[i] for i in tape.perm(nq, "storageq")] if permute else list(stmts_q)
             next_p = ["p", "q"][tape.draw(2, "next_p")]
-    phase = SimPhase("p", next_p if two else "p", storage, chooser)
-    phases = {"p": phase}
-    if two:
-        phases["q"] = SimPhase("q", "p", storage_q, chooser)
+    with tape.span("phase_objects"):
+        phase = make_phase(tape, "p", next_p if two else "p", storage, chooser, ctx.count)
+        phases = {"p": phase}
+        if two:
+            phases["q"] = make_phase(tape, "q", "p", storage_q, chooser, ctx.count)
         ctx.count("probe:two_phases_shared_ids")
     code = DAGCode(phases, "p")
 
